@@ -1,4 +1,5 @@
 import OpenFecVerif.Model.Api
+import OpenFecVerif.Proofs.LdpcFin
 /-!
 # C10 — status codes and queries tell the truth about decoding progress (session model)
 
@@ -90,3 +91,15 @@ theorem C10_rs_pointer_identity (IO : SymIO σ) (s : Session σ) (p : Params) (e
   by_cases h2 : ((if esi < p.k then s.nbAvailSrc + 1 else s.nbAvailSrc) == p.k) = true
   · simp only [h2, if_true, TMap.get_set_same, Option.map_some]
   · simp only [h2, Bool.false_eq_true, if_false, h1, TMap.get_set_same, Option.map_some]
+
+
+/-- **LDPC-Staircase / 2D: `of_finish_decoding` tells the truth.**  On a configured session (any state: before or after a previous
+Gaussian elimination), the status is OK exactly when decoding is complete afterwards and FAILURE exactly when it is not, and a symbol
+that was known stays known (completion never reverts).  No hypothesis on the matrix or on the symbol values. -/
+theorem C10_ldpc_finish_truthful (IO : SymIO σ) (s : Session σ) (p : Params) (it : IT.St σ) (hit : s.it = some it) (hk : it.k = p.k) :
+    ∃ it', (ldpcFinish IO s p).2.1.it = some it' ∧
+      ((ldpcFinish IO s p).1 = Status.ok ↔ it'.complete = true) ∧
+      ((ldpcFinish IO s p).1 = Status.failure ↔ it'.complete = false) ∧
+      (∀ e, it.known e = true → it'.known e = true) := by
+  obtain ⟨it', h1, h2, h3, h4, _⟩ := LdpcFin.ldpcFinish_truthful IO s p it hit hk
+  exact ⟨it', h1, h2, h3, h4⟩
